@@ -287,6 +287,15 @@ def r15_4(prog, rep):
                             if fv == v_ and c_ <= fc:
                                 ok = True
                         low = True
+                        # a signed index needs its own lower bound (an unsigned one wraps to a huge value that the upper test rejects)
+                        decl = [l_ for l_ in f.locals if l_["n"] == v_] + [p_ for p_ in f.params if p_["n"] == v_]
+                        if decl and decl[0].get("s") and c_ >= 0:
+                            low = any(fx in facts for fx in (("le", "0", v_), ("lt", "-1", v_), ("le", str(-c_), v_)))
+                            if not low and ok:
+                                rep.fail(rid, key, f.loc(nn.get("line", line)),
+                                         "the table index %s is a signed %s and is only bounded above: a month before the table's first one gives a negative "
+                                         "index that passes `%s < %s` and reads the header words in front of the data as month starts" % (v_, decl[0].get("t"), v_, nm))
+                                continue
                         if c_ < 0:
                             # v - c needs v >= c: for c == 1 any proof that v is non-zero
                             low = c_ == -1 and any(
